@@ -406,6 +406,7 @@ pub fn generate(prop: &str, seed: u64) -> RunSpec {
         stall_permille: 0,
         stall_len: *sw.pick(&[16, 40]),
         stall_target: String::new(),
+        stall_who: 0,
     };
     // half of the runs have one slow resource: acquisitions of one lock type stall often and long;
     // a quarter stall rarely at any acquisition
@@ -414,6 +415,7 @@ pub fn generate(prop: &str, seed: u64) -> RunSpec {
         0 | 1 => {
             sched.stall_target = (*sw.pick(&["CancellationToken", "EmmyLuaAnalysis", "WorkspaceManager", "()", "RequestId", "Option<"])).to_string();
             sched.stall_permille = *sw.pick(&[100, 300, 600]);
+            sched.stall_who = *sw.pick(&[0, 1, 1, 2]);
         }
         2 => sched.stall_permille = *sw.pick(&[5, 20]),
         _ => {}
@@ -621,10 +623,24 @@ pub fn generate(prop: &str, seed: u64) -> RunSpec {
         if let Action::EmmyrcWrite { diagnostic_interval, .. } = &action {
             interval = diagnostic_interval.unwrap_or(500);
         }
+        let renamed_to = match &action {
+            Action::RenameFile { to, .. } => Some(*to),
+            _ => None,
+        };
         let is_trigger = matches!(action, Action::ChangeConfig { .. } | Action::EmmyrcWrite { .. });
         let is_emmyrc = matches!(action, Action::EmmyrcWrite { .. });
         let gap = gen_gap(&mut r, &p, interval);
         script.push(Step { gap, action });
+        // The editor opens the renamed file right away (the rename handler is a spawned task that
+        // still has to read the new path from disk).
+        if let Some(to) = renamed_to {
+            if !open[to] && r.chance(1, 2) {
+                open[to] = true;
+                ver[to] += 1;
+                let gap = if r.chance(1, 2) { Gap::Zero } else { Gap::Yield(r.range(1, 6) as u32) };
+                script.push(Step { gap, action: Action::Open { doc: to, text: doc_text(to, ver[to], r.below(p.flavours) as u32) } });
+            }
+        }
         // The per-file diagnostic task of an edit fires `interval` ms after it: the next edit (or
         // the close) of the same document lands exactly there, while that task is between its
         // diagnosis, its publication and the removal of its token.
